@@ -25,6 +25,9 @@
 -/
 import IgrisModel.C14.Lemmas
 import IgrisModel.C14.Ledger
+import IgrisModel.C14.MachX
+import IgrisModel.C14.Access
+import IgrisModel.C14.Width
 
 namespace Igris.C14
 open Igris.Proto
@@ -302,6 +305,330 @@ theorem resize_orig_witness :
 
 /-- the same seven histories on the repaired code end without a fault (instance of `sv_no_fault`) -/
 example : isFault .oob (run cfgC [.il 0 [1, 2, 3]] Mach.init) = false := by decide
+
+
+/-! ## element constructors that throw: the basic exception guarantee
+
+`Exc.lean`: every member function that constructs elements, with a failure
+possible at each construction (`b` = how many constructions of the call still
+succeed; the next one throws).  `stepX c m op b` / `runX` are the machine of K
+containers where every operation of a history carries its own throw point. -/
+
+/-- ONE operation with the throw at ANY of its constructions (or none), from any
+    state that represents reference sequences: no fault, it throws exactly when
+    the reference says so, and the state it leaves represents the reference
+    result of the failed call — in particular every container is again a valid
+    container (`MInv`: size ≤ N, objects exactly in the slots below size, ledger
+    balanced). -/
+theorem sx_step_refines {c : Cfg} {m : Mach} {sp : SpecRegs} (h : MInv c m sp) (op : Op) (b : Nat) :
+    ∃ m' res, stepX c m op b = .ok (m', res, (specStepX c sp op b).2) ∧ MInv c m' (specStepX c sp op b).1 :=
+  stepX_refines h op b
+
+/-- EVERY history in which ANY subset of the operations throws at ANY of their
+    constructions: no fault, and the final state represents the reference
+    machine with the same failures. -/
+theorem sx_history_refines (c : Cfg) (ops : List (Op × Nat)) :
+    ∃ m, runX c ops Mach.init = .ok m ∧ MInv c m (specRunX c ops (fun _ => none)) :=
+  runX_refines ops _ _ (minv_init c)
+
+/-- no write outside the storage, no constructor over a live element, no
+    destructor on raw storage, no use of raw storage — whatever throws -/
+theorem sx_no_fault (c : Cfg) (ops : List (Op × Nat)) (f : Fault) : runX c ops Mach.init ≠ .error f := by
+  obtain ⟨m, h, _⟩ := sx_history_refines c ops
+  rw [h]; intro e; cases e
+
+/-- elements held by the object in register `r` -/
+def heldBy (m : Mach) (r : Nat) : Nat :=
+  match m.regs r with
+  | some v => v.size
+  | none => 0
+
+/-- THE BASIC EXCEPTION GUARANTEE.  After every history with failures, each
+    object that exists has `size ≤ N`, every slot below `size` holds a live
+    object, no slot at or above `size` holds one, and nothing that was ever
+    constructed is lost: constructor calls − destructor calls = the sum of the
+    sizes (a constructor that threw has destroyed what it had constructed). -/
+theorem sx_basic_guarantee (c : Cfg) (ops : List (Op × Nat)) :
+    ∃ m, runX c ops Mach.init = .ok m ∧
+      (∀ r v, m.regs r = some v → v.size ≤ c.N ∧ v.slots.length = c.N ∧
+        (∀ p, p < v.size → ∃ e, v.slots[p]? = some (.obj e)) ∧
+        (∀ p, v.size ≤ p → p < c.N → v.slots[p]? = some .raw)) ∧
+      m.nctor = m.ndtor + total (heldBy m) c.K := by
+  obtain ⟨m, h, hi⟩ := sx_history_refines c ops
+  refine ⟨m, h, ?_, ?_⟩
+  · intro r v hv
+    have hr := hi.rel r
+    rw [hv] at hr
+    cases hs : specRunX c ops (fun _ => none) r with
+    | none => rw [hs] at hr; exact hr.elim
+    | some es =>
+      rw [hs] at hr
+      refine ⟨by rw [hr.size]; exact hr.le, hr.len, ?_, ?_⟩
+      · intro p hp; rw [hr.pt p]; exact slotAt_obj (by rw [← hr.size]; exact hp)
+      · intro p hp1 hp2; rw [hr.pt p]; exact slotAt_raw (by rw [← hr.size]; exact hp1) hp2
+  · rw [hi.bal]
+    congr 1
+    apply total_congr
+    intro r _
+    have hr := hi.rel r
+    cases hm : m.regs r with
+    | none =>
+      have := (rel_none hr).mp hm
+      simp [szOf, heldBy, hm, this]
+    | some v =>
+      rw [hm] at hr
+      cases hs : specRunX c ops (fun _ => none) r with
+      | none => rw [hs] at hr; exact hr.elim
+      | some es => rw [hs] at hr; simp [szOf, heldBy, hm, hs, hr.size]
+
+/-- THE CONTAINERS STAY USABLE: after any history with failures, ANY further
+    history (again with failures anywhere) runs without a fault and refines the
+    reference machine continued from the reference state. -/
+theorem sx_usable_after_failure (c : Cfg) (ops more : List (Op × Nat)) :
+    ∃ m m', runX c ops Mach.init = .ok m ∧ runX c more m = .ok m' ∧
+      MInv c m' (specRunX c more (specRunX c ops (fun _ => none))) := by
+  obtain ⟨m, h, hi⟩ := sx_history_refines c ops
+  obtain ⟨m', h', hi'⟩ := runX_refines more m _ hi
+  exact ⟨m, m', h, h', hi'⟩
+
+/-- any history with failures followed by the destruction of all objects:
+    constructor calls = destructor calls, no object left — every element that a
+    failed or a successful call constructed has been destroyed exactly once -/
+theorem sx_lifetime_once (c : Cfg) (ops : List (Op × Nat)) :
+    ∃ m, runX c (ops ++ [(.finish, 0)]) Mach.init = .ok m ∧ m.nctor = m.ndtor ∧ ∀ r, m.regs r = none := by
+  obtain ⟨m, h, hi⟩ := sx_history_refines c (ops ++ [(.finish, 0)])
+  have e : specRunX c (ops ++ [(.finish, 0)]) (fun _ => none) = fun _ => none := by
+    rw [specRunX_append]; rfl
+  rw [e] at hi
+  refine ⟨m, h, by simpa [total_zero] using hi.bal, fun r => ?_⟩
+  have := hi.rel r
+  cases hm : m.regs r with
+  | none => rfl
+  | some v => rw [hm] at this; exact this.elim
+
+/-- a failed `push_back` / `emplace_back` changes nothing (strong guarantee) -/
+theorem failed_push_changes_nothing (N : Nat) (v : SVec) (x : Nat) (hroom : v.size < N) :
+    pushBackX N v x 0 = .ok (v, [], true) := by
+  have : ¬ v.size ≥ N := by omega
+  simp [pushBackX, this]
+
+/-- a failed copy assignment has destroyed the old elements and holds exactly the
+    `b` elements it had copied; a failed move assignment likewise, its source
+    keeps all its elements, the first `b` of them moved-from -/
+theorem failed_assign_keeps_prefix (trk : Bool) {N : Nat} {v o : SVec} {es eo : List Elem}
+    (hv : Abs N v es) (ho : Abs N o eo) {b : Nat} (hb : b < eo.length) :
+    (∃ v' tr, assignCopyX v o b = .ok (v', tr, true) ∧ v'.contents = eo.take b ∧ v'.size = b ∧
+        nC tr = b ∧ nD tr = es.length) ∧
+    (∃ v' o' tr, assignMoveX trk v o b = .ok (v', o', tr, true) ∧ v'.contents = eo.take b ∧ v'.size = b ∧
+        o'.contents = movedPrefix trk b eo ∧ o'.size = eo.length ∧ nC tr = b ∧ nD tr = es.length) := by
+  obtain ⟨v', tr, p1, p2, p3, p4⟩ := assignCopyX_spec hv ho b
+  obtain ⟨w', o', tr', q1, q2, q3, q4, q5⟩ := assignMoveX_spec trk hv ho b
+  have hd : decide (b < eo.length) = true := by simpa using hb
+  rw [hd] at p1 q1
+  rw [if_pos hb] at q3 q5
+  refine ⟨⟨v', tr, p1, p2.contents, by rw [p2.size]; simp; omega, by rw [p3]; omega, p4⟩,
+    ⟨w', o', tr', q1, q2.contents, by rw [q2.size]; simp; omega, q3.contents, by rw [q3.size]; simp,
+      by rw [q4]; omega, by rw [q5]; omega⟩⟩
+
+/-- a failed `resize` keeps the old elements and the `b` new ones it had constructed -/
+theorem failed_resize_keeps_constructed {N : Nat} {v : SVec} {es : List Elem} (h : Abs N v es) {n b : Nat}
+    (hb : es.length < min n N ∧ b < min n N - es.length) :
+    ∃ v' tr, resizeX N v n b = .ok (v', tr, true) ∧ v'.contents = es ++ List.replicate b (some 0) ∧
+      v'.size = es.length + b ∧ nC tr = b ∧ nD tr = 0 := by
+  obtain ⟨v', tr, p1, p2, p3⟩ := resizeX_spec h n b
+  have e : specResizeX N es n b = (es ++ List.replicate b (some 0), true) := by simp [specResizeX, hb]
+  rw [e] at p1 p2 p3
+  have hsz : v'.size = es.length + b := by rw [p2.size]; simp
+  -- the number of destructor calls: the body of the failed call has no destruction
+  have hbody : ∃ s1 tr1 k, valueInitLoopX ((if n ≥ N then N else n) - v.size) v.size v.slots b = .ok (s1, tr1, k, true) ∧
+      v' = ⟨s1, v.size + k⟩ ∧ tr = tr1 := by
+    simp only [resizeX, bind, Except.bind] at p1
+    cases hl : valueInitLoopX ((if n ≥ N then N else n) - v.size) v.size v.slots b with
+    | error er => rw [hl] at p1; cases p1
+    | ok q =>
+      obtain ⟨s1, tr1, k, t⟩ := q
+      rw [hl] at p1
+      cases t with
+      | true => simp [pure, Except.pure] at p1; exact ⟨s1, tr1, k, rfl, p1.1.symm, p1.2.symm⟩
+      | false =>
+        simp only [Bool.false_eq_true, if_false] at p1
+        cases hd : destroyLoop (v.size - (if n ≥ N then N else n)) (if n ≥ N then N else n) s1 with
+        | error er => rw [hd] at p1; cases p1
+        | ok q2 => rw [hd] at p1; simp [pure, Except.pure] at p1
+  obtain ⟨s1, tr1, k, hl, _, htr⟩ := hbody
+  have hnd : nD tr = 0 := by
+    rw [valueInitLoopX_eq] at hl
+    cases hv : valueInitLoop (min ((if n ≥ N then N else n) - v.size) b) v.size v.slots with
+    | error er => rw [hv] at hl; cases hl
+    | ok q =>
+      rw [hv] at hl
+      simp only [Except.map, Except.ok.injEq, Prod.mk.injEq] at hl
+      have hs := h.size; have hl' := h.le
+      obtain ⟨s2, tr2, a1, _, a3, _, _⟩ := valueInitLoop_spec (min ((if n ≥ N then N else n) - v.size) b) v.size v.slots (by
+        intro p hp1 hp2
+        rw [h.pt p]; exact slotAt_raw (by omega) (by split at hp2 <;> omega))
+      rw [a1] at hv; cases hv
+      rw [htr, ← hl.2.1]; exact a3
+  refine ⟨v', tr, p1, p2.contents, hsz, ?_, hnd⟩
+  simp only [List.length_append, List.length_replicate] at p3
+  omega
+
+/-- a constructor whose element constructor throws leaves NO object and has
+    destroyed exactly the `b` elements it had constructed (copy, move, iterator
+    range and initializer-list constructor) -/
+theorem failed_ctor_leaves_nothing (port trk : Bool) {N : Nat} {o : SVec} {eo : List Elem} (ho : Abs N o eo) (b : Nat) :
+    (b < eo.length → ∃ tr, copyCtorX N o b = .ok (none, tr, true) ∧ nC tr = b ∧ nD tr = b) ∧
+    (b < eo.length → ∃ o' tr, moveCtorX port trk N o b = .ok (none, o', tr, true) ∧
+        o'.contents = movedPrefix trk b eo ∧ o'.size = eo.length ∧ nC tr = b ∧ nD tr = b) ∧
+    (∀ xs : List Nat, b < min xs.length N →
+        (∃ tr, rangeCtorX N xs b = .ok (none, tr, true) ∧ nC tr = b ∧ nD tr = b) ∧
+        (∃ tr, ilCtorX N xs b = .ok (none, tr, true) ∧ nC tr = b ∧ nD tr = b)) := by
+  refine ⟨?_, ?_, ?_⟩
+  · intro hb
+    obtain ⟨w, tr, p1, p2, p3, p4⟩ := copyCtorX_spec ho b
+    have hd : decide (b < eo.length) = true := by simpa using hb
+    rw [hd] at p1; rw [if_pos hb] at p2 p4
+    cases w with
+    | some v => exact p2.elim
+    | none => exact ⟨tr, p1, by rw [p3]; omega, p4⟩
+  · intro hb
+    obtain ⟨w, o', tr, p1, p2, p3, p4, p5⟩ := moveCtorX_spec port trk ho b
+    have hd : decide (b < eo.length) = true := by simpa using hb
+    rw [hd] at p1; rw [if_pos hb] at p2 p3 p5
+    cases w with
+    | some v => exact p2.elim
+    | none => exact ⟨o', tr, p1, p3.contents, by rw [p3.size]; simp, by rw [p4]; omega, p5⟩
+  · intro xs hb
+    have hd : decide (b < min xs.length N) = true := by simpa using hb
+    obtain ⟨w, tr, p1, p2, p3, p4⟩ := rangeCtorX_spec N xs b
+    obtain ⟨w', tr', q1, q2, q3, q4⟩ := ilCtorX_spec N xs b
+    rw [hd] at p1 q1; rw [if_pos hb] at p2 p4 q2 q4
+    cases w with
+    | some v => exact p2.elim
+    | none =>
+      cases w' with
+      | some v => exact q2.elim
+      | none => exact ⟨⟨tr, p1, by rw [p3]; omega, p4⟩, ⟨tr', q1, by rw [q3]; omega, q4⟩⟩
+
+/-- a call that did not throw is the call of `Model.lean`: same storage, same
+    size, same events (the two descriptions of the member functions agree
+    wherever they overlap) -/
+theorem no_throw_is_plain {N : Nat} {v o v' : SVec} {n b : Nat} {tr : Tr} :
+    (∀ w, copyCtorX N o b = .ok (w, tr, false) → ∃ u, w = some u ∧ copyCtor N o = .ok (u, tr)) ∧
+    (assignCopyX v o b = .ok (v', tr, false) → assignCopy v o = .ok (v', tr)) ∧
+    (resizeX N v n b = .ok (v', tr, false) → resize N v n = .ok (v', tr)) :=
+  ⟨fun _ h => copyCtorX_done h, assignCopyX_done, resizeX_done⟩
+
+/-- the hypotheses above are satisfiable, and a throw really is a throw -/
+example : (stepX ⟨2, 2, false, true⟩ Mach.init (.new 0) 0).toOption.isSome = true := by decide
+example : (match pushBackX 2 ⟨[.raw, .raw], 0⟩ 7 0 with | .ok (_, _, t) => t | _ => false) = true := by decide
+
+/-! ### the code as it was, with a throwing element constructor -/
+
+/-- `a = b` with `m_size = other.m_size` before the loop, second copy throws:
+    `size()` is 2 with one element; the destructor then runs on raw storage -/
+theorem assign_throw_orig_witness :
+    (match assignCopyXOrig ⟨[.raw, .raw], 0⟩ ⟨[.obj (some 5), .obj (some 6)], 2⟩ 1 with
+      | .ok (v, _, true) => (match destructor v with | .error .dtorRaw => true | _ => false)
+      | _ => false) = true := by decide
+
+/-- `resize(3)` of one element, second `T{}` throws: one new element stays above
+    `size()`; the next `push_back` constructs over it -/
+theorem resize_throw_orig_witness :
+    (match resizeXOrig 3 ⟨[.obj (some 1), .raw, .raw], 1⟩ 3 1 with
+      | .ok (v, _, true) => (match pushBack 3 v 9 with | .error .ctorOverLive => true | _ => false)
+      | _ => false) = true := by decide
+
+/-- copy constructor, second copy throws: one element constructed, none destroyed, no object -/
+theorem ctor_throw_orig_witness :
+    (match copyCtorXOrig 2 ⟨[.obj (some 1), .obj (some 2)], 2⟩ 1 with
+      | .ok (none, tr, true) => decide (nC tr = 1 ∧ nD tr = 0)
+      | _ => false) = true := by decide
+
+/-- the same three calls on the repaired code -/
+example : (match assignCopyX ⟨[.raw, .raw], 0⟩ ⟨[.obj (some 5), .obj (some 6)], 2⟩ 1 with
+      | .ok (v, _, true) => (match destructor v with | .ok _ => true | _ => false)
+      | _ => false) = true := by decide
+example : (match resizeX 3 ⟨[.obj (some 1), .raw, .raw], 1⟩ 3 1 with
+      | .ok (v, _, true) => (match pushBack 3 v 9 with | .ok _ => true | _ => false)
+      | _ => false) = true := by decide
+example : (match copyCtorX 2 ⟨[.obj (some 1), .obj (some 2)], 2⟩ 1 with
+      | .ok (none, tr, true) => decide (nC tr = 1 ∧ nD tr = 1)
+      | _ => false) = true := by decide
+
+/-! ## the width of the size counter
+
+The model keeps `size : Nat`.  The code keeps `std::size_t m_size`; a store
+into a `w`-bit unsigned counter keeps `n % 2^w`. -/
+
+/-- A `w`-bit counter represents every size `0 … N` of a container of capacity
+    `N` exactly iff `N < 2^w` (N + 1 values are needed): for `size_t` the model's
+    `Nat` is faithful for every `N < 2^64`, a `uint8_t` counter is not for
+    `N = 256`, a `uint16_t` one not for `N = 65536`.  The correspondence stream
+    runs the capacities `2^w − 1, 2^w, 2^w + 1` for `w = 8, 16` (strings also
+    `w = 7`) filled to capacity and beyond. -/
+theorem size_counter_width (w N : Nat) : (∀ n, n ≤ N → stored w n = n) ↔ N < 2 ^ w := by
+  constructor
+  · intro h
+    have := h N (Nat.le_refl _)
+    unfold stored at this
+    have hp : 0 < 2 ^ w := Nat.pos_of_ne_zero (by simp)
+    have := Nat.mod_lt N hp
+    omega
+  · intro h n hn
+    exact Nat.mod_eq_of_lt (by omega)
+
+/-- at `N = 2^w` the full container reads `size() = 0` -/
+theorem size_counter_wraps (w : Nat) : stored w (2 ^ w) = 0 := Nat.mod_self _
+
+/-- `push_back` with a `w`-bit counter IS the `push_back` of the model whenever
+    the capacity fits the counter (`N < 2^w`) and the size is in range — for
+    `size_t` (w = 64) that is every capacity below 2^64 -/
+theorem narrow_counter_exact {w N : Nat} (hN : N < 2 ^ w) (v : SVec) (x : Nat) (hs : v.size ≤ N) :
+    pushBackW w N v x = pushBack N v x := by
+  unfold pushBackW pushBack
+  by_cases hf : v.size ≥ N
+  · simp [hf]
+  · have : stored w (v.size + 1) = v.size + 1 := Nat.mod_eq_of_lt (by omega)
+    simp [hf, this]
+
+/-- and it is NOT when `N = 2^w` (here w = 2, N = 4, the shape of the seeded
+    `uint8_t` counter for N = 256): the fourth push makes the full container read
+    size 0, its guard can never fire again, and the fifth push placement-constructs
+    over the live element in slot 0.  The model's `push_back` drops it. -/
+theorem narrow_counter_witness :
+    (match pushAllW 2 4 [1, 2, 3, 4] ⟨rawStore 4, 0⟩ with
+      | .ok v => decide (v.size = 0) && (match pushBackW 2 4 v 5 with | .error .ctorOverLive => true | _ => false)
+      | _ => false) = true ∧
+    (match rangeLoop 4 [1, 2, 3, 4, 5] ⟨rawStore 4, 0⟩ with
+      | .ok (v, _) => decide (v.size = 4)
+      | _ => false) = true := by decide
+
+/-! ## read accessors -/
+
+/-- `operator[]`, `data()[i]`, `*(begin()+i)` for every `i < size()`, `front()`,
+    `back()`, `end() - begin()`: no fault, and the element of the reference
+    sequence -/
+theorem sv_accessors_refine {N : Nat} {v : SVec} {es : List Elem} (h : Abs N v es) :
+    (∀ i, i < es.length → v.at i = .ok (es.getD i none)) ∧
+    (0 < es.length → v.front = .ok (es.getD 0 none) ∧ v.back = .ok (es.getD (es.length - 1) none)) ∧
+    v.dist = es.length := by
+  have hat : ∀ i, i < es.length → v.at i = .ok (es.getD i none) := by
+    intro i hi
+    have hp := h.pt i
+    simp only [slotAt, hi, if_true] at hp
+    have : es[i]? = some (es[i]) := List.getElem?_eq_getElem hi
+    rw [this] at hp
+    simp only [Option.map] at hp
+    simp [SVec.at, readObj, hp, List.getD, this]
+  refine ⟨hat, ?_, h.size⟩
+  intro hpos
+  refine ⟨hat 0 hpos, ?_⟩
+  have := hat (es.length - 1) (by omega)
+  simpa [SVec.back, SVec.at, h.size] using this
+
+example : (match SVec.at ⟨[.obj (some 7), .raw], 1⟩ 0 with | .ok (some 7) => true | _ => false) = true := by decide
+example : (match SVec.at ⟨[.obj (some 7), .raw], 1⟩ 1 with | .error .useRaw => true | _ => false) = true := by decide
 
 /-! ## static_string -/
 
